@@ -177,9 +177,11 @@ CLAIMED = {
              'five predefined entities, and each input byte contributes a segment that XML-unescapes to exactly that byte (so the reader '
              'gets the description back); Utf8::length never reads at or beyond length() and counts code points of well-formed UTF-8; the '
              "result reader's <point> handlers start every point from a cleared record (no coordinate or index leaks from the previous "
-             'point). Bounded end-to-end round trip for all strings of <= 4 bytes (quick) / 6 bytes (thorough). That EVERY user string '
-             'passes through str2xml (point ids are streamed raw), the full reader round trip, agreement with the HTML/text/Octave outputs, '
-             'compare-xyz and deformation are not decided.',
+             'point). gama-local-deformation: the index maps t1/t2 built by GamaLocalDeformation::init pair, entry by entry, the epoch-1 '
+             'and epoch-2 covariance positions of the SAME coordinate of the SAME common point (x, y, then z; coordinates adjusted in one '
+             'epoch only contribute nothing). Bounded end-to-end round trip for all strings of <= 4 bytes (quick) / 6 bytes (thorough). '
+             'That EVERY user string passes through str2xml (point ids are streamed raw), the full reader round trip, agreement with the '
+             'HTML/text/Octave outputs, compare-xyz and the numerical part of deformation are not decided.',
         design_ref='DESIGN.md 5 (C12)',
         note=TRUST + '; std::string is lowered to a length-carrying byte buffer whose append model asserts the 6n output bound',
         technique='contract-based deductive verification (CBMC dfcc function + loop contracts on the extracted escaping loop)'),
